@@ -41,8 +41,10 @@ func (o *op) input() string {
 	switch o.kind {
 	case "push":
 		return fmt.Sprintf("push(k%d prio=%d #%d)", o.key, o.prio, o.id)
-	case "remove", "exists", "get":
+	case "remove", "exists", "get", "rmpool":
 		return fmt.Sprintf("%s(k%d)", o.kind, o.key)
+	case "addpool":
+		return fmt.Sprintf("addpool(k%d #%d)", o.key, o.id)
 	case "put":
 		return fmt.Sprintf("put(k%d,#%d)", o.key, o.id)
 	}
@@ -65,7 +67,7 @@ func (o *op) output() string {
 		return fmt.Sprint(o.flag)
 	case "len":
 		return fmt.Sprint(o.n)
-	case "pending":
+	case "pending", "pendingpool":
 		return "{" + o.set + "}"
 	}
 	return "-"
@@ -223,7 +225,7 @@ func classOf(o *op) string {
 		return fmt.Sprint(o.flag)
 	case "len":
 		return "count"
-	case "pending":
+	case "pending", "pendingpool":
 		return "set"
 	}
 	return "x"
